@@ -15,7 +15,8 @@ type ResourcePath = String;
 pub struct Observer<Endpoint: Display> {
     pub endpoint: Endpoint,
     pub token: Vec<u8>,
-    unacknowledged_messages: u8,
+    // One wider than the limit, so that exceeding a limit of 255 is countable
+    unacknowledged_messages: u16,
     // The message id of the last update to be acknowledged
     message_id: Option<u16>,
 }
@@ -121,7 +122,8 @@ impl<Endpoint: Display + PartialEq + Clone> Subject<Endpoint> {
                 });
 
                 resource.observers.retain(|observer| {
-                    observer.unacknowledged_messages <= unacknowledged_limit
+                    observer.unacknowledged_messages
+                        <= u16::from(unacknowledged_limit)
                 });
             });
     }
